@@ -503,6 +503,41 @@ def stage_second_interpreter(report, tier):
             shutil.rmtree(d, ignore_errors=True)
 
 
+def stage_main_script_types(report, prop):
+    """C06 / C07: task types defined in the started script (module __main__), one with a post_init, under spawn (whose workers
+    import the script under another module name) and fork: the key a worker stores under is the key the caller computed, so the
+    tasks are cached after the run and a second run executes nothing."""
+    import subprocess
+    here = os.path.dirname(os.path.abspath(__file__))
+    for backend in ('spawn', 'fork'):
+        d = tempfile.mkdtemp(dir=subdir('mainscript'))
+        try:
+            os.makedirs(os.path.join(d, 'rec'))
+            cfg = dict(storage=os.path.join(d, 'store'), backend=backend, recdir=os.path.join(d, 'rec'), result_file=os.path.join(d, 'res.json'))
+            env = dict(os.environ, PYTHONPATH=os.environ.get('LV_REPO', '/repo') + ':' + here)
+            env.pop('LV_EPOCH', None)
+            what = dict(level='main-script', backend=backend)
+            p = subprocess.run([PY, os.path.join(here, 'l3_main_types.py'), json.dumps(cfg)], env=env, stdout=subprocess.PIPE,
+                               stderr=subprocess.PIPE, stdin=subprocess.DEVNULL, text=True, timeout=300)
+            if p.returncode != 0 or not os.path.exists(cfg['result_file']):
+                report.violation(f'{prop}:second-run-raised', f'a script that defines its task types itself failed under the {backend} backend: {p.stderr[-300:]}', what)
+                continue
+            out = json.load(open(cfg['result_file']))
+            foreign = [k for k in out['stored_keys'] if k not in out['keys'].values()]
+            missing = [t for t, c in out['cached_after'].items() if not c]
+            if foreign or (prop == 'C07' and missing):
+                report.violation(f'{prop}:key-differs-across-processes', f'task types defined in the started script, {backend} backend: the workers stored entries under keys '
+                                                                         f'{foreign[:3]} that are not the keys the caller computed ({sorted(out["keys"].values())[:4]} ..)', what)
+            elif missing:
+                report.violation(f'{prop}:not-cached-after-run', f'task types defined in the started script, {backend} backend: after a successful run {missing} are not reported cached', what)
+            elif out['executed_again']:
+                report.violation(f'{prop}:cached-but-executed', f'task types defined in the started script, {backend} backend: the second run executed {out["executed_again"]} tasks again', what)
+            elif out['values'] != out['values2']:
+                report.violation(f'{prop}:loaded-value-differs', 'the second run returned other values than the first', what)
+        finally:
+            shutil.rmtree(d, ignore_errors=True)
+
+
 def stage_mimic_probe(report):
     """C06: a task whose dict parameter merely spells a cached nested task (or enum member) is a different task: after the real one
     was run and cached, the look-alike, never run, is not reported as cached."""
@@ -527,6 +562,10 @@ def stage_mimic_probe(report):
 def run_histories(prop, report, tier, seed, replay=None):
     if prop == 'C06' and (replay is None or replay['input'].get('level') == 'mimic'):
         stage_mimic_probe(report)
+        if replay is not None:
+            return
+    if prop == 'C06' and (replay is None or replay['input'].get('level') == 'main-script'):
+        stage_main_script_types(report, prop)
         if replay is not None:
             return
     if prop == 'C06' and (replay is None or replay['input'].get('level') == 'second-interpreter'):
@@ -560,7 +599,7 @@ def run_histories(prop, report, tier, seed, replay=None):
         for out in obs['outs']:
             dist[f'out={out[0]}'] += 1
         owner = {'entry-lost-by-run': ['C08', 'C06'], 'entry-appeared': ['C08'], 'entry-appeared-unneeded': ['C08', 'C03'], 'cached-but-executed': ['C06', 'C03'], 'no-result-meta': ['C06'], 'result-meta-differs': ['C06', 'C03'],
-                 'other-task-served': ['C06'], 'equal-task-not-cached': ['C06', 'C07', 'C03'], 'loaded-value-differs': ['C06', 'C08'], 'uncache-left-entry': ['C08'], 'lab-answer-stale': ['C08', 'C06'], 'loaded-under-bust': ['C08', 'C01', 'C02'], 'stale-read-of-failed-dep': ['C02', 'C10'], 'stale-dependency-value': ['C01', 'C02'],
+                 'other-task-served': ['C06'], 'equal-task-not-cached': ['C06', 'C07', 'C03'], 'loaded-value-differs': ['C06', 'C08', 'C03'], 'uncache-left-entry': ['C08'], 'lab-answer-stale': ['C08', 'C06'], 'loaded-under-bust': ['C08', 'C01', 'C02'], 'stale-read-of-failed-dep': ['C02', 'C10'], 'stale-dependency-value': ['C01', 'C02'],
                  'foreign-task': ['C09', 'C08'], 'key-differs': ['C09', 'C08'], 'no-meta': ['C09'], 'listed-twice': ['C09', 'C08'], 'listed-not-cached': ['C08', 'C09'], 'stored-not-listed': ['C08', 'C09'], 'spurious-failure': ['C17', 'C02', 'C01', 'C06', 'C08', 'C09']}
         for sig, what in obs['problems']:
             if prop in owner.get(sig, []):
